@@ -104,7 +104,8 @@ func loadProgram() (*Program, error) {
 // ---------- running one harness ----------
 
 type HarnessResult struct {
-	Tier       int // tier the harness ran at (cross-listed harnesses always run at the quick bounds)
+	Tier       int  // tier the harness ran at (cross-listed harnesses always run at the quick bounds)
+	Deep       bool // thorough tier, second pass: larger family explored within a wall-clock budget
 	Name       string
 	Paths      int
 	Ends       map[string]int
